@@ -115,6 +115,12 @@ func (db *SingleBucketBackend) ListBucket(bucket string, prefix *gofakes3.Prefix
 func (db *SingleBucketBackend) getBucketWithFilePrefixLocked(bucket string, prefixPath, prefixPart string) (*gofakes3.ObjectList, error) {
 	response := gofakes3.NewObjectList()
 
+	if prefixPath != "" && !keyInsideBucket(prefixPath) {
+		// No stored key has '.', '..' or empty segments; followed as a path,
+		// such a prefix would list a directory outside the bucket:
+		return response, nil
+	}
+
 	if stat, err := db.fs.Stat(filepath.FromSlash(prefixPath)); err == nil && !stat.IsDir() && prefixPath != "" {
 		// The directory part of the prefix names an object, not a directory:
 		return response, nil
